@@ -241,7 +241,12 @@ func (tf *tableFacts) sameEntry(a *An, wdOp, pathOp tableOp) (bool, string) {
 	if pathOp.Kind == "update" && wdOp.Kind == "update" {
 		if pathOp.Val == wdOp.Key {
 			if e1, ok := entryOf(wdOp.Key, wdF); ok && wdOp.Val == e1 {
-				return true, "entry stored under its own wd, path -> that wd"
+				// and the path key is that same entry's path field (the tables stay inverse of each other: an entry is
+				// listed under the name it carries, not under the name it was asked for)
+				if pathOp.Key == e1+"."+pathF || keyIsFieldOf(pathOp, wdOp, pathF) {
+					return true, "entry stored under its own wd, its own path -> that wd"
+				}
+				return false, "the path-table key is not the path field of the entry stored in the wd table"
 			}
 			if strings.HasSuffix(wdOp.Key, "#k") {
 				return true, "path -> ranged wd key"
@@ -249,6 +254,25 @@ func (tf *tableFacts) sameEntry(a *An, wdOp, pathOp tableOp) (bool, string) {
 		}
 	}
 	return false, ""
+}
+
+// keyIsFieldOf: the key of pathOp is a load of field `field` of the very value that wdOp stores (compared after resolving
+// parameters of inlined helpers).
+func keyIsFieldOf(pathOp, wdOp tableOp, field string) bool {
+	if pathOp.KeyV == nil || wdOp.ValV == nil {
+		return false
+	}
+	ld, ok := stripConv(pathOp.KeyV).(*ssa.UnOp)
+	if !ok || ld.Op != token.MUL {
+		return false
+	}
+	fa, ok := ld.X.(*ssa.FieldAddr)
+	if !ok || fieldName(fa.X.Type(), fa.Field) != field {
+		return false
+	}
+	bv, bc := pathOp.V.Ctx.resolve(fa.X)
+	ev, ec := wdOp.V.Ctx.resolve(wdOp.ValV)
+	return stripConv(bv) == stripConv(ev) && bc == ec
 }
 
 func condEquivalent(a *An, x, y DNF) (bool, string) {
